@@ -92,6 +92,7 @@ Proof.
   - apply isort_perm.
   - apply isort_sorted. exact (cmp_by_SWO (fun x => x)).
 Qed.
+Print Assumptions sorted_values_model.
 
 Theorem C16_sorted_values_model : forall c s, s <> StCrash ->
   step c s SortedValues = (s, ozs (isort Z.compare (values_of c s)), onone) /\
@@ -114,6 +115,7 @@ Proof.
       destruct (sort_okb (cmp_of ci) _ res) eqn:E; try discriminate H;
       apply sort_okb_sound in E; destruct E as [E1 E2]; split; assumption.
 Qed.
+Print Assumptions sorted_values_func_model.
 
 Theorem C16_sorted_values_func_model : forall c s ci res, s <> StCrash ->
   fst (fst (step c s (SortedValuesFunc ci res))) = s /\
